@@ -98,8 +98,8 @@ theorem recordBatch_stepA (hash : Hash) (rates avgs : Option TMap) (txs : List T
   unfold recordBatch
   exact Step.forEachIdx_mem (fun i t ht => recordTx_stepA ok hash rates avgs i t (ha t ht))
 
-theorem applyBatch_stepA (e : TxEntry) (rates avgs : Option TMap) (ha : ∀ t ∈ e.txs, Auth t.inAddr) :
-    Step R (applyBatch P h e rates avgs) := by
+theorem applyBatch_stepA (e : TxEntry) (rates avgs : Option TMap) (ha : ∀ t ∈ e.txs, Auth t.inAddr)
+    (hlog : ∀ x, Step R (logExec x)) : Step R (applyBatch P h e rates avgs) := by
   have c1 := recordBatch_stepA ok e.hash rates avgs e.txs ha
   unfold applyBatch; step_tac
 
@@ -174,7 +174,8 @@ theorem recordHistory_step (bo : Nat) (e : TxEntry) : Step R (recordHistory P h 
   unfold recordHistory; step_tac
 
 theorem applyTxEntry_stepA (keymr : String) (bo : Nat) (e : TxEntry)
-    (ha : e.validAt P h = true → ∀ t ∈ e.txs, Auth t.inAddr) : Step R (applyTxEntry P h keymr bo e) := by
+    (ha : e.validAt P h = true → ∀ t ∈ e.txs, Auth t.inAddr) (hlog : ∀ x, Step R (logExec x)) :
+    Step R (applyTxEntry P h keymr bo e) := by
   prims ok
   have c1 := recordHistory_step ok
   unfold applyTxEntry
@@ -185,18 +186,19 @@ theorem applyTxEntry_stepA (keymr : String) (bo : Nat) (e : TxEntry)
     have hv : e.validAt P h = true := by
       simp only [Bool.and_eq_true] at hc
       exact hc.1.1
-    have c2 := applyBatch_stepA ok e none none (ha hv)
+    have c2 := applyBatch_stepA ok e none none (ha hv) hlog
     step_tac
   · exact Step.pure _
 
 theorem applyTransactionBlock_stepA (keymr : String) (es : List TxEntry)
-    (ha : ∀ e ∈ es, e.validAt P h = true → ∀ t ∈ e.txs, Auth t.inAddr) :
+    (ha : ∀ e ∈ es, e.validAt P h = true → ∀ t ∈ e.txs, Auth t.inAddr) (hlog : ∀ x, Step R (logExec x)) :
     Step R (applyTransactionBlock P h keymr es) := by
   unfold applyTransactionBlock
-  exact Step.forEachIdx_mem (fun i e he => applyTxEntry_stepA ok keymr i e (ha e he))
+  exact Step.forEachIdx_mem (fun i e he => applyTxEntry_stepA ok keymr i e (ha e he) hlog)
 
 theorem applyHeld_stepA (rates avgs : TMap) (e : TxEntry)
-    (ha : e.validAt P h = true → ∀ t ∈ e.txs, Auth t.inAddr) : Step R (applyHeld P h rates avgs e) := by
+    (ha : e.validAt P h = true → ∀ t ∈ e.txs, Auth t.inAddr) (hlog : ∀ x, Step R (logExec x)) :
+    Step R (applyHeld P h rates avgs e) := by
   prims ok
   unfold applyHeld
   apply Step.bind Step.get
@@ -208,18 +210,18 @@ theorem applyHeld_stepA (rates avgs : TMap) (e : TxEntry)
       cases hval : e.validAt P h with
       | true => rfl
       | false => simp [hval] at hc
-    have c2 := applyBatch_stepA ok e (some rates) (some avgs) (ha hv)
+    have c2 := applyBatch_stepA ok e (some rates) (some avgs) (ha hv) hlog
     step_tac
 
 theorem applyHolding_stepA (c : DB) (rates avgs : TMap) (fromH : Nat)
-    (ha : ∀ row ∈ c.holding, row.entry.validAt P h = true → ∀ t ∈ row.entry.txs, Auth t.inAddr) :
-    Step R (applyHolding P c h rates avgs fromH) := by
+    (ha : ∀ row ∈ c.holding, row.entry.validAt P h = true → ∀ t ∈ row.entry.txs, Auth t.inAddr)
+    (hlog : ∀ x, Step R (logExec x)) : Step R (applyHolding P c h rates avgs fromH) := by
   have c2 := recordPegRequests_step ok
   have c1 : ∀ i, ∀ e ∈ (c.holding.filter (·.height == i)).map (·.entry), Step R (applyHeld P h rates avgs e) := by
     intro i e he
     obtain ⟨row, hrow, hre⟩ := List.mem_map.1 he
     subst hre
-    exact applyHeld_stepA ok rates avgs row.entry (ha row (List.mem_filter.1 hrow).1)
+    exact applyHeld_stepA ok rates avgs row.entry (ha row (List.mem_filter.1 hrow).1) hlog
   have c3 : ∀ (pend : List TxEntry) (i : Nat), Step R (M.foldM (fun (l : List TxEntry) e => do
           let join ← applyHeld P h rates avgs e
           pure (if join then l ++ [e] else l)) pend ((c.holding.filter (·.height == i)).map (·.entry))) := by
@@ -259,19 +261,22 @@ theorem gradeAndRates_step {P : Params} {R : Rel DB} {Auth : Addr → Prop} (c :
 /-- what the block at `b.height`, applied on the committed database `c`, is entitled to debit:
     the input address of every batch on the transaction chain or in holding that validates at
     this height (signature included), and the special addresses of the scheduled adjustments -/
-structure AuthOK (P : Params) (Auth : Addr → Prop) (c : DB) (b : Block) : Prop where
+structure AuthOK (P : Params) (R : Rel DB) (Auth : Addr → Prop) (c : DB) (b : Block) : Prop where
+  /-- the history-variable write of `applyTransactionBatch` respects the relation -/
+  log : ∀ x, Step R (logExec x)
   txs : ∀ es, b.txs = some es → ∀ e ∈ es, e.validAt P b.height = true → ∀ t ∈ e.txs, Auth t.inAddr
   held : ∀ row ∈ c.holding, row.entry.validAt P b.height = true → ∀ t ∈ row.entry.txs, Auth t.inAddr
   mint : b.height = P.act.v204Burn → Auth P.mintAddr
   burn : b.height = P.act.devRewards ∨ b.height = P.act.v202 →
     Auth (if b.height < P.act.v202 then P.oldBurnAddr else P.burnAddr)
 
-theorem authOK_true (P : Params) (c : DB) (b : Block) : AuthOK P (fun _ => True) c b :=
-  ⟨fun _ _ _ _ _ _ _ => trivial, fun _ _ _ _ _ => trivial, fun _ => trivial, fun _ => trivial⟩
+theorem authOK_true (P : Params) {R : Rel DB} (hlog : ∀ x, Step R (logExec x)) (c : DB) (b : Block) :
+    AuthOK P R (fun _ => True) c b :=
+  ⟨hlog, fun _ _ _ _ _ _ _ => trivial, fun _ _ _ _ _ => trivial, fun _ => trivial, fun _ => trivial⟩
 
 section
 variable {P : Params} {R : Rel DB} {Auth : Addr → Prop} (c : DB) (b : Block) (avgs : TMap)
-  (ok : PrimsOK P b.height R Auth) (au : AuthOK P Auth c b)
+  (ok : PrimsOK P b.height R Auth) (au : AuthOK P R Auth c b)
 include ok
 
 theorem sprPanicCheck_step : Step R (sprPanicCheck b) := by
@@ -316,14 +321,14 @@ theorem preAdjust_stepA : Step R (preAdjust P c b.height) := by
 
 theorem holdingPhase_stepA (ra : Bool) : Step R (holdingPhase P c b avgs ra) := by
   prims ok
-  have c5 := fun rates fromH => applyHolding_stepA ok c rates avgs fromH au.held
+  have c5 := fun rates fromH => applyHolding_stepA ok c rates avgs fromH au.held au.log
   unfold holdingPhase; step_tac
 
 theorem txBlockPhase_stepA : Step R (txBlockPhase P b) := by
   unfold txBlockPhase
   split
   · rename_i es hes
-    exact applyTransactionBlock_stepA ok b.txKeymr es (au.txs es hes)
+    exact applyTransactionBlock_stepA ok b.txKeymr es (au.txs es hes) au.log
   · exact Step.pure _
 
 theorem txPhase_stepA (ra : Bool) : Step R (txPhase P c b avgs ra) := by
@@ -371,7 +376,7 @@ end
 /-! ### the unconditional versions (`Auth` = everything) -/
 
 section
-variable {P : Params} {h : Nat} {R : Rel DB} (ok : PrimsOK P h R)
+variable {P : Params} {h : Nat} {R : Rel DB} (ok : PrimsOK P h R) (hlog : ∀ x, Step R (logExec x))
 include ok
 
 theorem subBal_step (a : Addr) (t : Ticker) (v : Nat) : Step R (subBal P a t v) := subBal_stepA ok a t v trivial
@@ -379,33 +384,37 @@ theorem recordTx_step (hash : Hash) (rates avgs : Option TMap) (idx : Nat) (t : 
     Step R (recordTx P h hash rates avgs idx t) := recordTx_stepA ok hash rates avgs idx t trivial
 theorem recordBatch_step (hash : Hash) (rates avgs : Option TMap) (txs : List Tx) :
     Step R (recordBatch P h hash rates avgs txs) := recordBatch_stepA ok hash rates avgs txs (fun _ _ => trivial)
+include hlog
 theorem applyBatch_step (e : TxEntry) (rates avgs : Option TMap) : Step R (applyBatch P h e rates avgs) :=
-  applyBatch_stepA ok e rates avgs (fun _ _ => trivial)
+  applyBatch_stepA ok e rates avgs (fun _ _ => trivial) hlog
+omit hlog
 theorem nullifyMinted_step (c : DB) : Step R (nullifyMinted P c) := nullifyMinted_stepA ok c trivial
 theorem nullifyBurn_step (c : DB) (hh : Nat) (ts : Int) : Step R (nullifyBurn P c hh ts) := nullifyBurn_stepA ok c hh ts trivial
+include hlog
 theorem applyTxEntry_step (keymr : String) (bo : Nat) (e : TxEntry) : Step R (applyTxEntry P h keymr bo e) :=
-  applyTxEntry_stepA ok keymr bo e (fun _ _ _ => trivial)
+  applyTxEntry_stepA ok keymr bo e (fun _ _ _ => trivial) hlog
 theorem applyTransactionBlock_step (keymr : String) (es : List TxEntry) :
-    Step R (applyTransactionBlock P h keymr es) := applyTransactionBlock_stepA ok keymr es (fun _ _ _ _ _ => trivial)
+    Step R (applyTransactionBlock P h keymr es) := applyTransactionBlock_stepA ok keymr es (fun _ _ _ _ _ => trivial) hlog
 theorem applyHeld_step (rates avgs : TMap) (e : TxEntry) : Step R (applyHeld P h rates avgs e) :=
-  applyHeld_stepA ok rates avgs e (fun _ _ _ => trivial)
+  applyHeld_stepA ok rates avgs e (fun _ _ _ => trivial) hlog
 theorem applyHolding_step (c : DB) (rates avgs : TMap) (fromH : Nat) :
-    Step R (applyHolding P c h rates avgs fromH) := applyHolding_stepA ok c rates avgs fromH (fun _ _ _ _ _ => trivial)
+    Step R (applyHolding P c h rates avgs fromH) := applyHolding_stepA ok c rates avgs fromH (fun _ _ _ _ _ => trivial) hlog
 
 end
 
 section
 variable {P : Params} {R : Rel DB} (c : DB) (b : Block) (avgs : TMap) (ok : PrimsOK P b.height R)
-include ok
+  (hlog : ∀ x, Step R (logExec x))
+include ok hlog
 
-theorem preAdjust_step : Step R (preAdjust P c b.height) := preAdjust_stepA c b ok (authOK_true P c b)
-theorem holdingPhase_step (ra : Bool) : Step R (holdingPhase P c b avgs ra) := holdingPhase_stepA c b avgs ok (authOK_true P c b) ra
-theorem txBlockPhase_step : Step R (txBlockPhase P b) := txBlockPhase_stepA ({} : DB) b ok (authOK_true P {} b)
-theorem txPhase_step (ra : Bool) : Step R (txPhase P c b avgs ra) := txPhase_stepA c b avgs ok (authOK_true P c b) ra
-theorem syncBlock_step : Step R (syncBlock P c b avgs) := syncBlock_stepA c b avgs ok (authOK_true P c b)
-theorem burnZeroing_step : Step R (burnZeroing P c b) := burnZeroing_stepA c b ok (authOK_true P c b)
+theorem preAdjust_step : Step R (preAdjust P c b.height) := preAdjust_stepA c b ok (authOK_true P hlog c b)
+theorem holdingPhase_step (ra : Bool) : Step R (holdingPhase P c b avgs ra) := holdingPhase_stepA c b avgs ok (authOK_true P hlog c b) ra
+theorem txBlockPhase_step : Step R (txBlockPhase P b) := txBlockPhase_stepA ({} : DB) b ok (authOK_true P hlog {} b)
+theorem txPhase_step (ra : Bool) : Step R (txPhase P c b avgs ra) := txPhase_stepA c b avgs ok (authOK_true P hlog c b) ra
+theorem syncBlock_step : Step R (syncBlock P c b avgs) := syncBlock_stepA c b avgs ok (authOK_true P hlog c b)
+theorem burnZeroing_step : Step R (burnZeroing P c b) := burnZeroing_stepA c b ok (authOK_true P hlog c b)
 /-- every step of the block transaction respects `R` -/
-theorem blockTx_step : Step R (blockTx P c b avgs) := blockTx_stepA c b avgs ok (authOK_true P c b)
+theorem blockTx_step : Step R (blockTx P c b avgs) := blockTx_stepA c b avgs ok (authOK_true P hlog c b)
 
 end
 
